@@ -207,4 +207,46 @@ theorem forNat_differences (sub : α → α → α) (sh : Nat → α) (n : Nat) 
     rw [List.getElem?_eq_none (by simp; omega)]
     rfl
 
+/-! ### count-down loops that store a value per index -/
+
+/-- a store at an index outside the range of an upward loop of stores commutes with the loop -/
+theorem forRangeN_set_comm (f : Int → α) (k : Nat) (lo : Int) (hlo : 0 ≤ lo) (j : Int) (hj : j < lo ∨ lo + k ≤ j) (hj0 : 0 ≤ j)
+    (v : α) (c : List α) :
+    forRangeN (fun i q => sliceSet q i (f i)) k lo (sliceSet c j v) =
+      sliceSet (forRangeN (fun i q => sliceSet q i (f i)) k lo c) j v := by
+  induction k generalizing lo c with
+  | zero => rfl
+  | succ k ih =>
+    rw [forRangeN, forRangeN]
+    have hne : lo.toNat ≠ j.toNat := by omega
+    have hc : sliceSet (sliceSet c j v) lo (f lo) = sliceSet (sliceSet c lo (f lo)) j v := by
+      unfold sliceSet
+      exact List.set_comm _ _ (fun h => hne h.symm)
+    rw [hc]
+    exact ih (lo + 1) (by omega) (by omega) _
+
+/-- `for i := hi; i > lo; i-- { q[i] = f i }` stores the same values as `for i := lo+1; i <= hi; i++ { q[i] = f i }` (the
+stored value does not depend on the slice and the indices are distinct cells, so the order is immaterial) -/
+theorem forDownN_eq_forRangeN (f : Int → α) (k : Nat) (hi : Int) (h : 0 ≤ hi - k + 1) (c : List α) :
+    forDownN (fun i q => sliceSet q i (f i)) k hi c = forRangeN (fun i q => sliceSet q i (f i)) k (hi - k + 1) c := by
+  induction k generalizing hi c with
+  | zero => rfl
+  | succ k ih =>
+    rw [forDownN, forRangeN_succ_right]
+    have e1 : hi - ((k + 1 : Nat) : Int) + 1 = hi - 1 - (k : Int) + 1 := by omega
+    have e2 : hi - 1 - (k : Int) + 1 + (k : Int) = hi := by omega
+    rw [ih (hi - 1) (by omega), e1, e2]
+    exact forRangeN_set_comm f k (hi - 1 - k + 1) (by omega) hi (by omega) (by omega) (f hi) c
+
+theorem forRangeDown_eq_forRange (f : Int → α) (hi lo : Int) (hlo : 0 ≤ lo) (c : List α) :
+    forRangeDown hi lo (fun i q => sliceSet q i (f i)) c = forRange (lo + 1) (hi + 1) (fun i q => sliceSet q i (f i)) c := by
+  unfold forRangeDown forRange
+  have e : (hi + 1 - (lo + 1)).toNat = (hi - lo).toNat := by omega
+  rw [e]
+  by_cases hk : lo ≤ hi
+  · have h1 : hi - ((hi - lo).toNat : Int) + 1 = lo + 1 := by omega
+    rw [forDownN_eq_forRangeN f _ hi (by omega), h1]
+  · have h0 : (hi - lo).toNat = 0 := by omega
+    rw [h0]; rfl
+
 end OW.Gen.Prelude
